@@ -110,19 +110,46 @@ Section XmlLoad.
     match xattr a_offset x with Some (AInt z) => Ok z | _ => Raise DaeMalformed end.
 
   (* ------------------------------------------------------------ Skin.load *)
+  Definition text_toks (o : option xml) : list tok :=
+    match o with Some x => match xtext x with Some l => l | None => [] end | None => [] end.
+
+  (* bind_shape_matrix: float(v) for v in text.split() - an element without text is None.split (raw) *)
+  Definition bind_stage (node : xml) : outcome (option (list Z)) :=
+    match find ns a_bind_shape_matrix node with
+    | None => Ok None
+    | Some b => match xtext b with
+                | None => Raise DaeMalformed
+                | Some l => match all_some tokZ l with Some zs => Ok (Some zs) | None => Raise DaeMalformed end
+                end
+    end.
+
+  (* <vertex_weights>: <v>, <vcount> (missing: DaeIncompleteError), then inside one try block the
+     numbers of <v> (float), of <vcount> (int) and the offsets (int), then the '#' test of every input *)
+  Definition vw_stage (vw : xml) : outcome (list (sem * atom * Z) * list nat * list Z) :=
+    match find ns a_v vw, find ns a_vcount vw with
+    | None, _ | _, None => Raise DaeIncomplete
+    | Some vnode, Some vcnode =>
+    let inodes := findall ns a_input vw in
+    match all_some tokZ (text_toks (Some vnode)) with
+    | None => Raise DaeMalformed
+    | Some index =>
+    match omapM tok_count (text_toks (Some vcnode)) with
+    | Raise e => Raise e
+    | Ok vcounts =>
+    match omapM offset_of inodes with
+    | Raise e => Raise e
+    | Ok offs =>
+    match omapM joints_input inodes with
+    | Raise e => Raise e
+    | Ok vins => Ok (map (fun p => (fst (fst p), snd (fst p), snd p)) (combine vins offs), vcounts, index)
+    end end end end end.
+
   Definition skin_parts (sc : scope) (node ctrl : xml) : outcome skin_desc :=
     if Nat.ltb (count_distinct (map fst sc)) 3 then Raise DaeMalformed else
     match xattr a_source node with
     | Some (ARef true g) =>
     if negb (memN g geoms) then Raise DaeBrokenRef else
-    (* bind_shape_matrix: float(v) for v in text.split() - no text is None.split (raw) *)
-    match (match find ns a_bind_shape_matrix node with
-           | None => Ok None
-           | Some b => match xtext b with
-                       | None => Raise DaeMalformed
-                       | Some l => match all_some tokZ l with Some zs => Ok (Some zs) | None => Raise DaeMalformed end
-                       end
-           end) with
+    match bind_stage node with
     | Raise e => Raise e
     | Ok bind =>
     let jnodes := findall_path [a_joints; a_input] node in
@@ -133,29 +160,14 @@ Section XmlLoad.
     match find ns a_vertex_weights node with
     | None => Raise DaeIncomplete
     | Some vw =>
-    match find ns a_v vw, find ns a_vcount vw with
-    | None, _ | _, None => Raise DaeIncomplete
-    | Some vnode, Some vcnode =>
-    let inodes := findall ns a_input vw in
-    match all_some tokZ (match xtext vnode with Some l => l | None => [] end) with
-    | None => Raise DaeMalformed
-    | Some index =>
-    match omapM tok_count (match xtext vcnode with Some l => l | None => [] end) with
+    match vw_stage vw with
     | Raise e => Raise e
-    | Ok vcounts =>
-    match omapM offset_of inodes with
-    | Raise e => Raise e
-    | Ok offs =>
-    match omapM joints_input inodes with
-    | Raise e => Raise e
-    | Ok vins =>
+    | Ok (vins, vcounts, index) =>
     (* Skin.__init__: the controller needs an id *)
     match xattr a_id ctrl with
     | None => Raise DaeMalformed
-    | Some _ =>
-        Ok (mk_skin_desc sc true bind jins
-              (map (fun p => (fst (fst p), snd (fst p), snd p)) (combine vins offs)) vcounts index)
-    end end end end end end end end end
+    | Some _ => Ok (mk_skin_desc sc true bind jins vins vcounts index)
+    end end end end end
     | _ => Raise DaeBrokenRef
     end.
 
@@ -229,23 +241,24 @@ Section XmlLoad.
     end end.
 
   (* ------------------------------------------------------------ SPEC: declarative reading *)
-  Definition text_toks (o : option xml) : list tok :=
-    match o with Some x => match xtext x with Some l => l | None => [] end | None => [] end.
   Definition ref_or_default (x : xml) : atom :=
     match xattr a_source x with Some (ARef _ id) => id | _ => a_empty end.
   Definition numbers (l : list tok) : list Z := map (fun t => match tokZ t with Some z => z | None => 0%Z end) l.
 
+  Definition read_bind (node : xml) : option (list Z) :=
+    match find ns a_bind_shape_matrix node with Some b => Some (numbers (text_toks (Some b))) | None => None end.
+  Definition read_vw_inputs (vw : xml) : list (sem * atom * Z) :=
+    map (fun x => (sem_of x, ref_or_default x, match xattr a_offset x with Some (AInt z) => z | _ => 0%Z end))
+        (findall ns a_input vw).
+  Definition read_counts (l : list tok) : list nat := map (fun t => match t with TInt z => Z.to_nat z | _ => 0 end) l.
+
   (* what a <skin> element says, read field by field *)
   Definition read_skin (sc : scope) (node : xml) : skin_desc :=
     let vw := find ns a_vertex_weights node in
-    let inodes := match vw with Some w => findall ns a_input w | None => [] end in
-    mk_skin_desc sc true
-      (match find ns a_bind_shape_matrix node with Some b => Some (numbers (text_toks (Some b))) | None => None end)
+    mk_skin_desc sc true (read_bind node)
       (map (fun x => (sem_of x, ref_or_default x)) (findall_path [a_joints; a_input] node))
-      (map (fun x => (sem_of x, ref_or_default x,
-                      match xattr a_offset x with Some (AInt z) => z | _ => 0%Z end)) inodes)
-      (map (fun t => match t with TInt z => Z.to_nat z | _ => 0 end)
-           (text_toks (match vw with Some w => find ns a_vcount w | None => None end)))
+      (match vw with Some w => read_vw_inputs w | None => [] end)
+      (read_counts (text_toks (match vw with Some w => find ns a_vcount w | None => None end)))
       (numbers (text_toks (match vw with Some w => find ns a_v w | None => None end))).
 
   Definition read_morph (sc : scope) (node : xml) : morph_desc :=
